@@ -1155,7 +1155,7 @@ func oracleC09R(p *Plan, res *Result) (*common.Fail, bool) {
 func genPlanC09R(rt *rapid.T) *Plan {
 	c := Cfg{ResendUs: 20000, TimeoutUs: rapid.SampledFrom([]int{160000, 220000, 300000}).Draw(rt, "timeout"), HeartbeatUs: 3_600_000_000}
 	p := &Plan{Cfg: c, DefConn: okFate(300), DefHb: okFate(200), DefAck: okFate(100), DefDisc: okFate(300)}
-	if rapid.IntRange(0, 3).Draw(rt, "send-right-behind-reconnect") == 0 {
+	if rapid.IntRange(0, 2).Draw(rt, "send-right-behind-reconnect") == 0 {
 		// nothing is pending: 1..4 requests are acknowledged, the gateway ends the connection, and a Send arrives within
 		// a few milliseconds of the reconnect - while the client's goroutines may be standing in a slow diagnostic line.
 		// Channel and numbering switch together: that Send is number 0 on the new channel.
@@ -1165,9 +1165,11 @@ func genPlanC09R(rt *rapid.T) *Plan {
 			a = append(a, AppStep{AfterUs: rapid.IntRange(0, 600).Draw(rt, "gap0"), Tag: i + 1})
 		}
 		discAt := 8000 + rapid.IntRange(0, 4000).Draw(rt, "disc-at0")
-		p.Senders = [][]AppStep{a, {{AfterUs: discAt + rapid.IntRange(300, 6000).Draw(rt, "behind-reconnect"), Tag: 50}, {AfterUs: 200, Tag: 51}}}
+		p.SlowLogUs = rapid.SampledFrom([]int{0, 3000, 8000, 8000}).Draw(rt, "slow-log")
+		// the Send starts 0 .. (one log line + 0.5 ms) after the client has taken the reconnect's connect response: the
+		// reconnect path may then be standing in a diagnostic line
+		p.Senders = [][]AppStep{a, {{AfterConn: 2, AfterUs: rapid.IntRange(0, p.SlowLogUs+500).Draw(rt, "behind-reconnect"), Tag: 50}, {AfterUs: 200, Tag: 51}}}
 		p.Gw = []GwStep{{AfterUs: discAt, Kind: "discreq", Chan: "cur"}}
-		p.SlowLogUs = rapid.SampledFrom([]int{0, 2000, 5000, 5000}).Draw(rt, "slow-log")
 		return p
 	}
 	if rapid.IntRange(0, 3).Draw(rt, "same-channel") == 0 {
